@@ -11,7 +11,6 @@ RULE = ('lap scripts over multisets of NON-EMPTY intervals with coordinates <= 3
         'expected (a depth change or two clusters); distinct by case text')
 UNIQUE_NOTE = 'depth_rle + depth_rle_unique: the run-length encoding of the depth function is unique'
 EXHAUSTIVE = {}
-CROSSCHECK = True      # thorough tier: a sample is re-evaluated inside Coq against the extracted runner
 
 
 def runs_expected(cur):
